@@ -71,8 +71,8 @@ func c14One(c *vf.Ctx, sub string, i int, r *rand.Rand, ids []Ident) {
 		npub = 1
 	}
 	nlist := r.Intn(6)
-	if many && nlist == 0 {
-		nlist = 2
+	if many && nlist < 3 {
+		nlist = 3
 	}
 	delay := []int{0, 100, 400}[r.Intn(3)]
 	closeAtEnd := r.Intn(2) == 0
@@ -80,12 +80,13 @@ func c14One(c *vf.Ctx, sub string, i int, r *rand.Rand, ids []Ident) {
 	if r.Intn(3) == 0 {
 		seg = int64(1 + r.Intn(2)) // segmented syncs: the count of a notification spans all segments
 	}
+	entriesToo := !many && r.Intn(3) == 0
 	twoExplicit := !many && r.Intn(3) == 0 // a second goroutine syncs the same publishers explicitly at the same time
 	overlap := []string{"", "", "explicit", "announce"}[r.Intn(4)]
 	if many {
 		overlap = ""
 	}
-	desc := fmt.Sprintf("publishers=%d rounds=%d listeners=%d tap-delay=%d/1000 close-with-stalled-readers=%v segment-depth=%d concurrent-explicit-syncs-of-one-publisher=%v held-notification-overlap=%q", npub, rounds, nlist, delay, closeAtEnd, seg, twoExplicit, overlap)
+	desc := fmt.Sprintf("publishers=%d rounds=%d listeners=%d tap-delay=%d/1000 close-with-stalled-readers=%v segment-depth=%d concurrent-explicit-syncs-of-one-publisher=%v held-notification-overlap=%q entries-syncs=%v", npub, rounds, nlist, delay, closeAtEnd, seg, twoExplicit, overlap, entriesToo)
 	c.Cur(sub, i, desc)
 	pubs := make([]*c08Pub, npub)
 	byID := map[peer.ID]*c08Pub{}
@@ -169,7 +170,7 @@ func c14One(c *vf.Ctx, sub string, i int, r *rand.Rand, ids []Ident) {
 		go l.run(c, tl)
 		return l
 	}
-	behaviours := []string{"fast", "slow", "stalled", "cancel-after-n", "cancel-then-read", "late", "cancel-immediately"}
+	behaviours := []string{"fast", "slow", "stalled", "cancel-after-n", "cancel-then-read", "late", "cancel-immediately", "read-some-then-stall"}
 	var late []string
 	for x := 0; x < nlist; x++ {
 		b := behaviours[r.Intn(len(behaviours))]
@@ -178,6 +179,9 @@ func c14One(c *vf.Ctx, sub string, i int, r *rand.Rand, ids []Ident) {
 		}
 		if many && x == 1 {
 			b = "fast"
+		}
+		if many && x == 2 {
+			b = "read-some-then-stall"
 		}
 		if b == "late" {
 			late = append(late, b)
@@ -271,6 +275,26 @@ func c14One(c *vf.Ctx, sub string, i int, r *rand.Rand, ids []Ident) {
 				for rd := 0; rd < rounds; rd++ {
 					explicitSync(p)
 					time.Sleep(time.Duration(rr.Intn(600)) * time.Microsecond)
+				}
+			}(p)
+		}
+	}
+	if entriesToo {
+		// entries syncs of the same publishers, with a hook scoped to the call: they share the per-publisher lock and
+		// the per-publisher hook slot with the ad syncs whose block counts the notifications carry
+		for _, p := range pubs {
+			wg.Add(1)
+			rr := rand.New(rand.NewSource(r.Int63()))
+			go func(p *c08Pub) {
+				defer wg.Done()
+				for e := 0; e < 2+rr.Intn(4); e++ {
+					time.Sleep(time.Duration(rr.Intn(1500)) * time.Microsecond)
+					ech, err := NewEntryChain(rr, p.st, 1+rr.Intn(3), linkProto(multihash.SHA2_256, -1))
+					if err != nil {
+						return
+					}
+					_ = s.SyncEntries(context.Background(), p.front.AddrInfo(), ech.Head(), dagsync.ScopedBlockHook(func(peer.ID, cid.Cid, dagsync.SegmentSyncActions) {}))
+					c.Inc("entries_syncs_of_the_same_publishers")
 				}
 			}(p)
 		}
@@ -614,6 +638,13 @@ func (l *c14Listener) doCancel(tl *tapLog) {
 
 func (l *c14Listener) run(c *vf.Ctx, tl *tapLog) {
 	defer close(l.done)
+	if l.behaviour == "read-some-then-stall" {
+		// first let a backlog build up (so that the few notifications read next leave others queued behind them)
+		base := tl.count("dist.forward")
+		for w := 0; w < 4000 && tl.count("dist.forward") < base+l.n+3; w++ {
+			time.Sleep(500 * time.Microsecond)
+		}
+	}
 	switch l.behaviour {
 	case "stalled", "cancel-then-read":
 		if l.behaviour == "cancel-then-read" {
@@ -636,6 +667,11 @@ func (l *c14Listener) run(c *vf.Ctx, tl *tapLog) {
 		case "cancel-after-n":
 			if cnt == l.n {
 				l.doCancel(tl)
+			}
+		case "read-some-then-stall":
+			// has read a few notifications out of a backlog; now falls far behind, and reads the rest at the end
+			if cnt == l.n {
+				<-l.release
 			}
 		}
 	}
